@@ -238,7 +238,16 @@ def run(ctx):
               "edges + [inf] exactly when the binning does not include its right edge; mask unchanged",
               "the extra +inf edge (which keeps histogramdd from closing the last real bin) is not appended exactly on the "
               "not-includes_right_edge branch", nbm.where)
-    src_ok = any(U(n.value) == "to_numpy_bins_with_mask(self.bins)" for n in ast.walk(nbm.node) if isinstance(n, ast.Assign))
+    # on every way through the getter: the mask comes from the bin pairs themselves (is_consecutive() is a tolerance test,
+    # a gap narrower than that tolerance is still a gap), and nothing else binds `mask`
+    src_ok = True
+    for path in function_paths(nbm.node):
+        if end_kind(path) == "raise":
+            continue
+        binds = [s[1] for s in path if s[0] == "stmt" and isinstance(s[1], ast.Assign)
+                 and any(isinstance(x, ast.Name) and x.id == "mask" for t in s[1].targets for x in ast.walk(t))]
+        if not binds or any(U(b.value) != "to_numpy_bins_with_mask(self.bins)" for b in binds):
+            src_ok = False
     ctx.check(src_ok, "C02.c", "numpy_bins_with_mask:source", "edges, mask come from to_numpy_bins_with_mask(self.bins)",
               "edges / mask are not derived from the binning's own bins", nbm.where)
     check_mask_builder(ctx, "C02.c", m)
